@@ -41,7 +41,11 @@ def mk_case(cid, elems, keys, rng, container=None, legal=True, keytext=None):
     return {"id": cid, "kind": "c17",
             "abs": {"elems": es, "keys": keys, "legal": legal},
             # (a quarter of the elements are written with upper-case direction letters - '154N97W14')
-            "args": {"elems": es, "container": container, "key": key, "upper": [rng.random() < 0.25 for _ in es]}}
+            "args": {"elems": es, "container": container, "key": key, "upper": [rng.random() < 0.25 for _ in es],
+                     # (tracts carry a configuration - e.g. the default directions a PLSSDesc hands down; it says how
+                     #  to parse, not where the tract lies)
+                     "cfgs": {str(j): rng.choice(["n,w", "s,e", "n", "e", "s,w,clean_qq"]) for j in range(len(es))
+                              if rng.random() < 0.4}}}
 
 
 def check(ctx, cases):
